@@ -171,10 +171,10 @@ class XOr(_NAryNeuron):
             The amount of bounds tightening or new information that is leaned by the inference step.
 
         """
-        [node.upward(**kwds) for node in self.conjunctions]
-        [node.upward(**kwds) for node in self.negations]
-        self.disjunction.upward(**kwds)
-        return super().upward(**kwds)
+        result = sum([node.upward(**kwds) for node in self.conjunctions])
+        result = result + sum([node.upward(**kwds) for node in self.negations])
+        result = result + self.disjunction.upward(**kwds)
+        return result + super().upward(**kwds)
 
     def downward(
         self,
@@ -198,7 +198,7 @@ class XOr(_NAryNeuron):
 
         """
         result = super().downward(index, groundings, **kwds)
-        [node.downward(**kwds) for node in self.negations]
-        [node.downward(**kwds) for node in self.conjunctions]
-        self.disjunction.downward(**kwds)
+        result = result + sum([node.downward(**kwds) for node in self.negations])
+        result = result + sum([node.downward(**kwds) for node in self.conjunctions])
+        result = result + self.disjunction.downward(**kwds)
         return result
